@@ -501,6 +501,19 @@ MCORPUS = [
 ]
 
 
+def group_with_big_jump(toks):
+    """the binary AST text cannot tell a group that ends the expression from the tail of the top-level concatenation: a large lazy
+    `.{n,m}?` inside such a group is not a chaining point in re.c; regexes with a group and a large lazy dot range are left out
+    of the chain-structure comparison"""
+    import re as _re
+    try:
+        src = bytes.fromhex(toks.get("src", "")).decode("latin1")
+    except ValueError:
+        return False
+    big = any(int(a) > 200 or int(b) > 200 for a, b in _re.findall(r"Jl(\d+),(\d+)", toks.get("re", "")))
+    return big and "(" in src
+
+
 def clean_out(pid):
     from vf.checks import c02
     c02.clean_out(pid)
@@ -678,7 +691,7 @@ def run(tier, replay=None):
     found = found or wfound
     ares, afound = rc.check_atoms(core, chk, cases, imap, amap, found_so_far=found) if lres.get("driver_ok") else ({}, False)
     found = found or afound
-    cres, cfound = rc.check_chain(core, chk, cases, amap) if lres.get("driver_ok") else ({}, False)
+    cres, cfound = rc.check_chain(core, chk, cases, amap, skip=group_with_big_jump) if lres.get("driver_ok") else ({}, False)
     found = found or cfound
     chk.cov.update({
         "evaluations": len(cases), "distinct_nontrivial": len(distinct),
